@@ -47,9 +47,14 @@
 #define PID "C04"
 #elif PIPES_PROP == 5
 #define PID "C05"
+#elif PIPES_PROP == 13
+/* C13 (upipe_helper_input.h is among its anchors): only what the property says about blockers -- releasing the last blocker resumes
+ * the pump: a source pump is not left suspended by a pipe that holds nothing any more (drained, flushed) or is dead */
+#define PID "C13"
 #else
 #define PID "C20"
 #endif
+#define ORACLE_BLOCK (PIPES_PROP == 1 || PIPES_PROP == 13)
 #define ORACLE_LIFE  (PIPES_PROP == 1)
 #define ORACLE_PROTO (PIPES_PROP == 4)
 #define ORACLE_DATA  (PIPES_PROP == 5)
@@ -675,9 +680,9 @@ static void check_blockers(struct ctx *c, const char *after)
         /* trickplay in pause keeps the sources of its inputs blocked on purpose until the rate changes */
         if (c->type == T_TRICKP && anyalive && (c->rate.num == 0 || c->rate.den == 0)) settled = false;
         if (total - gates > 0 && !holder && settled)
-            FAILP(ORACLE_LIFE, "blocker/stale", "after %s: source pump %d is still blocked by %d blocker(s) of the pipe under test although it holds no buffer any more (or is dead): the pump can never fire again", after, s, total - gates);
+            FAILP(ORACLE_BLOCK, "blocker/stale", "after %s: source pump %d is still blocked by %d blocker(s) of the pipe under test although it holds no buffer any more (or is dead): the pump can never fire again", after, s, total - gates);
         if (total == 0 && !fake_upump_pump_active(c->src[s]))
-            FAILP(ORACLE_LIFE, "blocker/not-restarted", "after %s: source pump %d has no blocker left but was not restarted", after, s);
+            FAILP(ORACLE_BLOCK, "blocker/not-restarted", "after %s: source pump %d has no blocker left but was not restarted", after, s);
     }
 }
 
@@ -1435,6 +1440,8 @@ out:
     rep->nontrivial = (c->classes & ((1ull << CL_FLOWDEF_WHILE_HELD) | (1ull << CL_REQ_LATE_HELD) | (1ull << CL_REJECT) | (1ull << CL_SETOUT_HOLDING) | (1ull << CL_RELEASED_HOLDING))) != 0;
 #elif PIPES_PROP == 5
     rep->nontrivial = (c->classes & (1ull << CL_DELIVERED4)) && (c->classes & holdcl);
+#elif PIPES_PROP == 13
+    rep->nontrivial = (c->classes & (1ull << CL_BLOCKED_SRC)) && (c->classes & ((1ull << CL_PARTIAL_DRAIN) | (1ull << CL_FLUSHED_HOLDING) | (1ull << CL_RELEASED_HOLDING) | (1ull << CL_SRC_FREED_BLOCKED)));
 #else
     rep->nontrivial = (c->classes & (1ull << CL_OPT_GET_AFTER_SET)) != 0;
 #endif
